@@ -247,6 +247,19 @@ class Run:
                 f"(not a verdict about the code):\n{r.counterexample[:3000]}")
         return r
 
+    def expect_refuted(self, module, cfg, invariant, **kw):
+        """A PINNED instance: the operator that transcribes the code as it was BEFORE a repair (or a deliberately broken
+        protocol variant) must be refuted by TLC on the named invariant - the specification can tell the defect from the
+        repair.  Anything else (no counterexample, another invariant) is a machinery error."""
+        r = tlc.model_check(module, cfg, **kw)
+        self.timing["model_checking"] = self.timing.get("model_checking", 0) + r.wall_s
+        if r.ok or r.violated != invariant:
+            raise MachineryError(f"pinned instance {module}/{cfg}: expected TLC to refute {invariant}, got "
+                                 f"{'no error' if r.ok else r.violated}")
+        r.mode = "refuted-as-expected:" + invariant
+        self.mc.append(r)
+        return r
+
     # -- recording ------------------------------------------------------------------------
     def writer(self, trace_module, shards=NPROC):
         if trace_module not in self._writers:
